@@ -73,6 +73,7 @@ def run(ctx):
     games += gen_games.extra_families(ctx.rng, games, 12 if ctx.quick else 150)
     recs = sc.run_games(ctx, games, limit=20, tag="c06")
     sc.correspondence(ctx, recs, "cmp_shape", "c06")
+    sc.resolve_check(ctx, recs, (), 40 if ctx.quick else 400, "c06")
     check(ctx, recs)
     known_k1(ctx)
 
